@@ -725,7 +725,9 @@ class ModuleVistor(NodeVisitor):
             return
 
         if obj is not None:
-            obj.docstring = docstring
+            # A lone surrogate cannot be encoded when the page is written: show it escaped,
+            # like extract_docstring() does for docstring literals.
+            obj.docstring = docstring.encode('utf-8', 'backslashreplace').decode('utf-8')
             # TODO: It might be better to not perform docstring parsing until
             #       we have the final docstrings for all objects.
             obj.parsed_docstring = None
